@@ -15,26 +15,30 @@ Definition writes_mem (i:xinsn) : bool :=
 
 Inductive verdict :=
 | VReached (steps:nat) (changed:list reg) (memw:bool)     (* got to the destination *)
-| VStuck (rip:Z) (steps:nat)                              (* undecodable instruction at rip *)
+| VStuck (rip:Z) (steps:nat)                              (* undecodable instruction at rip, still inside the bytes the implementation wrote *)
+| VLanded (rip:Z) (steps:nat)                             (* control left the written bytes for an address that is NOT the destination *)
 | VTimeout (rip:Z).
 
-Fixpoint run_to (fuel:nat) (steps:nat) (dst:Z) (memw:bool) (s:xstate) : verdict :=
+Definition inside (ranges:list (Z*Z)) (a:Z) : bool := existsb (fun r => (fst r <=? a) && (a <? fst r + snd r)) ranges.
+Fixpoint run_to (ranges:list (Z*Z)) (fuel:nat) (steps:nat) (dst:Z) (memw:bool) (s:xstate) : verdict :=
   if rip s =? dst then
     VReached steps (filter (fun r => negb (xr s r =? regs0 r)) all_regs) memw
+  else if negb (inside ranges (rip s)) then VLanded (rip s) steps
   else match fuel with
   | O => VTimeout (rip s)
   | S fuel =>
     match xdecode (xm s) (rip s) with
     | None => VStuck (rip s) steps
-    | Some (i, len) => run_to fuel (S steps) dst (memw || writes_mem i) (xexec s i len)
+    | Some (i, len) => run_to ranges fuel (S steps) dst (memw || writes_mem i) (xexec s i len)
     end
   end.
 
 (* memory = mem0 overlaid with the observed writes (oldest first), plus the return address on the stack *)
 Definition overlay (ws:list (Z * list Z)) : mem :=
   fold_left (fun m w => write m (fst w) (snd w)) ws (write mem0 STACK (le_bytes 8 RETADDR)).
+Definition ranges_of (ws:list (Z * list Z)) : list (Z*Z) := map (fun w => (fst w, zlen (snd w))) ws.
 Definition check_reach (ws:list (Z * list Z)) (func dst:Z) : verdict :=
-  run_to 8 0 dst false {| rip := func; xr := regs0; xm := overlay ws |}.
+  run_to (ranges_of ws) 8 0 dst false {| rip := func; xr := regs0; xm := overlay ws |}.
 
 (* for the forced boolean: run to the return address, report RAX and RSP *)
 Inductive bverdict := BReturned (rax rsp:Z) (changed:list reg) (memw:bool) | BOther (v:verdict).
@@ -43,6 +47,7 @@ Definition check_bool (ws:list (Z * list Z)) (func:Z) : bverdict :=
     if rip s =? RETADDR then
       BReturned (xr s RAX) (xr s RSP)
         (filter (fun r => negb (xr s r =? regs0 r)) [RCX;RDX;RBX;RBP;RSI;RDI;R8;R9;R10;R11;R12;R13;R14;R15]) memw
+    else if negb (inside (ranges_of ws) (rip s)) then BOther (VLanded (rip s) 0)
     else match fuel with
     | O => BOther (VTimeout (rip s))
     | S fuel => match xdecode (xm s) (rip s) with
